@@ -212,6 +212,69 @@ func c11Files(c *core.Ctx) {
 	c.Extra("refs_resolved", nRefs)
 }
 
+// c11UnderProperty: the key-value lies in a statement that assigns to (a member
+// of) a local obtained from <schema>.Properties.Get(name), or to a local that
+// is itself stored in a member of such a local (anyOf = append(anyOf, …);
+// prop.AnyOf = anyOf).
+func c11UnderProperty(info *types.Info, body *ast.BlockStmt, kv *ast.KeyValueExpr) bool {
+	ld := core.NewLocalDefs(info, body)
+	isProp := func(v *types.Var) bool {
+		for _, d := range ld.All(v) {
+			if d.RHS == nil {
+				continue
+			}
+			if call, ok := ast.Unparen(d.RHS).(*ast.CallExpr); ok {
+				if se, ok := ast.Unparen(call.Fun).(*ast.SelectorExpr); ok && se.Sel.Name == "Get" {
+					return true
+				}
+			}
+		}
+		return false
+	}
+	storedInProp := func(v *types.Var) bool {
+		found := false
+		ast.Inspect(body, func(n ast.Node) bool {
+			as, ok := n.(*ast.AssignStmt)
+			if !ok || len(as.Lhs) != len(as.Rhs) {
+				return true
+			}
+			for i, l := range as.Lhs {
+				if core.VarOf(info, as.Rhs[i]) == v {
+					if root := core.RootVar(info, l); root != nil && core.VarOf(info, l) != root && isProp(root) {
+						found = true
+					}
+				}
+			}
+			return true
+		})
+		return found
+	}
+	under := false
+	ast.Inspect(body, func(n ast.Node) bool {
+		as, ok := n.(*ast.AssignStmt)
+		if !ok || !(as.Pos() <= kv.Pos() && kv.End() <= as.End()) {
+			return true
+		}
+		for _, l := range as.Lhs {
+			root := core.RootVar(info, l)
+			if root == nil {
+				continue
+			}
+			if core.VarOf(info, l) == root {
+				if storedInProp(root) {
+					under = true
+				}
+				continue
+			}
+			if isProp(root) || storedInProp(root) {
+				under = true
+			}
+		}
+		return true
+	})
+	return under
+}
+
 func c11Patterns(c *core.Ctx) {
 	p := c.P
 	n := 0
@@ -243,6 +306,12 @@ func c11Patterns(c *core.Ctx) {
 					return true
 				}
 				kv = k2
+				// a literal stored under a property looked up in the schema (prop.AnyOf = append(…,
+				// &Schema{Pattern: …})) describes that member, whose own type publishes and
+				// enforces its pattern: not the pattern of this type
+				if c11UnderProperty(info, fd.Decl.Body, kv) {
+					return true
+				}
 			}
 			id, ok := kv.Key.(*ast.Ident)
 			if !ok || id.Name != "Pattern" {
@@ -252,7 +321,7 @@ func c11Patterns(c *core.Ctx) {
 			var patObj types.Object
 			if !ok {
 				// a package-level variable with a constant initialiser
-				if v := core.VarOf(info, kv.Value); v != nil && isPkgVar(v) {
+				if v := pkgVar(info, kv.Value); v != nil && isPkgVar(v) {
 					patObj = v
 					folder := &core.Folder{P: p}
 					if s, isS := folder.Fold(fd.Pkg, kv.Value).(string); isS {
@@ -553,11 +622,30 @@ func c11Producers(c *core.Ctx, named *types.Named, f *types.Var, jn string) {
 				}
 			}
 			if !ok && holder != nil {
-				// an unconditional assignment at the top level of the function body
-				for _, st := range fd.Decl.Body.List {
-					if as, isAs := st.(*ast.AssignStmt); isAs && len(as.Lhs) == 1 && len(as.Rhs) == 1 &&
-						core.IsFieldOfVar(info, as.Lhs[0], holder, f.Name()) && nonNil(as.Rhs[0]) {
-						ok = true
+				// an unconditional assignment: a statement of the list the allocation itself stands in
+				// (or of the function body)
+				lists := [][]ast.Stmt{fd.Decl.Body.List}
+				ast.Inspect(fd.Decl.Body, func(m ast.Node) bool {
+					var l []ast.Stmt
+					switch b := m.(type) {
+					case *ast.BlockStmt:
+						l = b.List
+					case *ast.CaseClause:
+						l = b.Body
+					}
+					for _, st := range l {
+						if st == at {
+							lists = append(lists, l)
+						}
+					}
+					return true
+				})
+				for _, l := range lists {
+					for _, st := range l {
+						if as, isAs := st.(*ast.AssignStmt); isAs && len(as.Lhs) == 1 && len(as.Rhs) == 1 &&
+							core.IsFieldOfVar(info, as.Lhs[0], holder, f.Name()) && nonNil(as.Rhs[0]) {
+							ok = true
+						}
 					}
 				}
 			}
